@@ -25,7 +25,9 @@ pkgs=$(cd $WT && git apply --numstat $D/patch.diff | awk '{print $3}' | xargs -n
 echo "[$ID] demo without patch rc=$without (want 0); build rc=$build (want 0); demo with patch rc=$with (want !=0); existing tests rc=$existing (want 0)"
 if [ $without -ne 0 ] || [ $build -ne 0 ] || [ $with -eq 0 ] || [ $existing -ne 0 ]; then echo "[$ID] MUTATION NOT CONFIRMED"; tail -20 $L/existing.txt; cleanup; exit 3; fi
 cd /verif
-VERIF_REPO=$WT VERIF_OUTDIR=$OD VERIF_EVIDENCE_DIR=$OD/evidence VERIF_BUDGET_S=$B ./check $P quick > $L/check.txt 2>&1; rc=$?
+# build from a private copy of the simulator sources, so that edits made in /verif/sim while this runs cannot break the build
+mkdir -p $OD && rsync -a --delete /verif/sim/ $OD/sim/
+VERIF_SIMDIR=$OD/sim VERIF_REPO=$WT VERIF_OUTDIR=$OD VERIF_EVIDENCE_DIR=$OD/evidence VERIF_BUDGET_S=$B ./check $P quick > $L/check.txt 2>&1; rc=$?
 tail -8 $L/check.txt | cut -c1-400
 echo "[$ID] check rc=$rc"
 mkdir -p /verif/seeded/$ID
